@@ -22,9 +22,9 @@ vals={
  8:"(if_int64 %s)"%lit(0),
  9:"(if_int64 %s)"%lit(1),
 }
-e="(ite (= ((_ extract 0 0) t) #b0) (if_LRbyte (mk_slice (s_reg b) (s_off b) (serial_size t) (s_cap b))) (if_string (mk_str a (s_off b) (serial_size t))))"
+e="(ite (= ((_ extract 0 0) t) #b0) (if_LRuint8 (mk_slice (s_reg b) (s_off b) (serial_size t) (s_cap b))) (if_string (mk_str a (s_off b) (serial_size t))))"
 for k in range(9,-1,-1):
     e="(ite (= t %s) %s %s)"%(lit(k),vals[k],e)
 o.append("(define-fun serial_value ((t %s) (a %s) (b Slice)) Iface %s)"%(W,B,e))
-o.append("(define-fun storable ((v Iface)) Bool (or ((_ is if_nil) v) ((_ is if_int64) v) ((_ is if_float64) v) ((_ is if_string) v) ((_ is if_LRbyte) v)))")
+o.append("(define-fun storable ((v Iface)) Bool (or ((_ is if_nil) v) ((_ is if_int64) v) ((_ is if_float64) v) ((_ is if_string) v) ((_ is if_LRuint8) v)))")
 for l in o: print("//@ "+l)
